@@ -216,6 +216,13 @@ def render(spec):
             ret = A if spec["cap_alias"] else "list(_content({}))".format(A)
             if spec["cap_alias"] and A == "self":
                 ret = "self.data"
+            if spec["style"] == "amix" and _co(name):
+                # a plain function which hands back a coroutine (e.g. ``lambda lst: async_capture(lst)``): awaited where it stands
+                w(
+                    "async def {0}__impl({1}):\n    await Tick()\n    LOG.append(('cap', '{0}', _same({1}), _content({1})))\n"
+                    "    CAPRET['{0}'] = {2}\n    return CAPRET['{0}']\ndef {0}({1}):\n    return {0}__impl({1})\n".format(name, A, ret)
+                )
+                continue
             w(
                 "{3}def {0}({1}):\n{4}    LOG.append(('cap', '{0}', _same({1}), _content({1})))\n"
                 "    CAPRET['{0}'] = {2}\n    return CAPRET['{0}']\n".format(name, A, ret, ADEF_(name), ATICK_(name))
